@@ -29,6 +29,7 @@ fn allowed_map(sc: &HubSc, init: &BTreeMap<String, Vec<u8>>) -> BTreeMap<String,
                 };
                 if *declared == Declared::Valid || matches!(declared, Declared::ExcessBytes(_)) {
                     let h = b3(&body);
+                    let path = norm_path(path);
                     m.entry(path.clone()).or_default().insert(h);
                     m.entry(format!("{path}.conflict-{}", short_hex(&h))).or_default().insert(h);
                 }
@@ -40,7 +41,7 @@ fn allowed_map(sc: &HubSc, init: &BTreeMap<String, Vec<u8>>) -> BTreeMap<String,
 
 fn rel_of(abs: &str) -> Option<String> {
     let r = abs.strip_prefix(ROOT)?.strip_prefix('/')?;
-    if r.starts_with(".copia") || is_staging(r) || r.is_empty() {
+    if is_hub_private(r) || is_staging(r) || r.is_empty() {
         None
     } else {
         Some(r.to_string())
@@ -62,7 +63,7 @@ fn second_wave(sc: &HubSc, killed: usize) -> HubSc {
         }
     }
     reqs.push(Req::List);
-    clients[killed] = ClientProg { reqs, chunk_seed: r.next_u64(), magic: true, bye: true, pipeline: false };
+    clients[killed] = ClientProg { reqs, chunk_seed: r.next_u64(), magic: true, bye: true, pipeline: false, pad: Vec::new() };
     HubSc {
         seed: r.next_u64(),
         init: Vec::new(),
